@@ -11,6 +11,7 @@ exhaustively for each pipeline shape (explicit-state exploration of all schedule
  P5 on the first failure every still-running stage is sent SIGTERM, and every child is reaped before exit
  P6 the wait loop's bookkeeping matches the children (no wait without children: would hang or abort)
  P7 no input file named on the command line is ever unlinked
+ P8 pipe write ends: close-on-exec, wired to the producer's stdout, closed by the driver before it waits (EOF reaches the consumer)
 """
 import facts
 from facts import AnalysisBroken
@@ -70,6 +71,22 @@ def analyse(run, label):
     foreign = [u for u in unl if u in inputs_named]
     out.append(('P7', not foreign, 'the driver deletes its own input file %s  [%s]' % (foreign, trace)))
     out.append(('P6', not any(e[0] == 'wait-nochild' for e in evs), 'wait() called with no child left (bookkeeping of running stages is off)  [%s]' % trace))
+    # P8 the write end of every inter-stage pipe exists in exactly one process once the producer runs: it is close-on-exec (no other child inherits it) and the driver closes its own copy before it
+    # blocks in wait(); otherwise the consumer never sees end-of-file and the driver hangs
+    import fcntl as _f
+    for i, e in enumerate(evs):
+        if e[0] != 'pipe': continue
+        rfd, wfd = e[1], e[2]
+        j = next((k for k in range(i + 1, len(evs)) if evs[k][0] in ('spawn', 'spawn-fail')), None)
+        if j is None: continue
+        cloexec = any(x[0] == 'fcntl' and x[1] == wfd and x[2] == _f.F_SETFD and x[3] is not None and x[3] & _f.FD_CLOEXEC for x in evs[i:j])
+        wired = any(x[0] == 'dup2' and x[1] == wfd and x[2] == 1 for x in evs[i:j])
+        ptrace = ' '.join('%s%s' % (x[0], tuple(x[1:])) if x[0] != 'spawn' else 'spawn(%s)' % x[2][0] for x in evs[i:j + 4] if x[0] in ('pipe', 'fcntl', 'dup2', 'close', 'spawn', 'spawn-fail', 'reap'))
+        out.append(('P8', cloexec, 'the write end (fd %d) of the pipe is not marked close-on-exec with fcntl(fd, F_SETFD, FD_CLOEXEC) before the producer is spawned: processes started later inherit it and the consumer never sees end-of-file  [%s]' % (wfd, ptrace)))
+        out.append(('P8', wired, 'the write end (fd %d) of the pipe is not made the standard output of the stage spawned next  [%s]' % (wfd, ptrace)))
+        k2 = next((k for k in range(j + 1, len(evs)) if evs[k][0] in ('reap', 'wait-nochild')), len(evs))
+        closed = any(x[0] == 'close' and x[1] == wfd for x in evs[j if evs[j][0] == 'spawn-fail' else j + 1:k2])
+        out.append(('P8', closed, 'the driver keeps its copy of the write end (fd %d) open while it waits: the consumer never sees end-of-file and the driver hangs  [%s]' % (wfd, ptrace)))
     return out
 
 
@@ -120,6 +137,7 @@ def rule_failures(chk, prog, tier):
         'P5b': chk.rule('C18.P5b', 'every child process is reaped before the driver exits', floor=100),
         'P7': chk.rule('C18.P7', 'the driver never unlinks one of the input files named on its command line', floor=100),
         'P6': chk.rule('C18.P6', 'the wait loop never waits without a child (count of running stages matches the children)', floor=100),
+        'P8': chk.rule('C18.P8', 'the write end of every inter-stage pipe is close-on-exec, becomes the standard output of the producing stage, and is closed by the driver before it waits: end-of-file reaches the consumer when the producer ends (no hang)', floor=50),
     }
     shapes = SHAPES + (THOROUGH if tier == 'thorough' else [])
     jobs = []
